@@ -184,7 +184,66 @@ def r11_2(ctx):
     ctx.check("add_op returns the existing operand of the same name", [lab(o.value) for o in outs] == ["existing"], "existing", str([lab(o.value) for o in outs]), fn_where(idx, fa))
     fi, outs = r.run("add_op", lambda: [AObj("Variable", {"name": "bundle", "isa_name": None}, label="v")], self_over=over2, args_list=True)
     ctx.check("add_op rejects an operand that shadows a parameter", all(o.kind == "raise" for o in outs), "raises", str([outcome_text(o)[:30] for o in outs]), fn_where(idx, fa))
+    name_collision_checks(ctx)
     compound_nodes_registered(ctx)
+
+
+def name_collision_checks(ctx):
+    """A user variable may be spelled like the base name of an internal node (seq, branch, op_ADD ...): the node that is
+    being added must never be replaced by that variable (its statements would vanish), and it must still be registered."""
+    idx = get_index(ctx.env)
+    fa = idx.func("RZILTransformer.add_op")
+    pt = idx.enum_table("PureType")
+    for cls, kind, dict_name in (("Sequence", None, "write_ops"), ("Branch", None, "write_ops"), ("Assignment", None, "write_ops"), ("ArithmeticOp", "EXEC", "exec_ops"), ("Cast", "EXEC", "exec_ops"), ("Number", "LET", "read_ops")):
+        r = Runner(idx, keep_real=("add_op",))
+        box = {}
+
+        def over3():
+            var = AObj("Variable", {"name": "x", "isa_name": None}, label="user variable x")
+            h = AObj("ILOpsHolder", {"op_count": 5, "read_ops": {"x": var}, "exec_ops": {}, "write_ops": {}, "hybrid_effect_dict": {}}, label="holder", opaque=False)
+            box["h"] = h
+            return {"il_ops_holder": h, "inlined_pure_classes": ()}
+
+        def args3(cls=cls, kind=kind):
+            f = {"name": "x", "isa_name": None, "value_type": mk_vt("t", True, 32), "num_id": -1, "inlined": False}
+            if kind:
+                f["type"] = EnumV("PureType", kind, pt[kind])
+            op = AObj(cls, f, label="new node")
+            box["op"] = op
+            return [op]
+
+        try:
+            fi, outs = r.run("add_op", args3, self_over=over3, args_list=True)
+        except Exception as e:
+            ctx.need(False, f"add_op[{cls} named like a variable]: {e}")
+        got = sorted({lab(o.value) if o.kind != "raise" else "RAISE" for o in outs})
+        registered = any(v is box["op"] for v in box["h"].fields[dict_name].values()) if isinstance(box["h"].fields.get(dict_name), dict) else False
+        ctx.check(f"add_op[{cls} whose base name equals a variable's name]", got == ["new node"] and registered, "the new node, registered under its own (suffixed) name",
+                  f"returns {got}, registered={registered}", fn_where(idx, fa))
+    # adding the very same node twice is idempotent (expr_stmt does that)
+    r = Runner(idx, keep_real=("add_op",))
+    box = {}
+
+    def over4():
+        h = AObj("ILOpsHolder", {"op_count": 5, "read_ops": {}, "exec_ops": {}, "write_ops": {}, "hybrid_effect_dict": {}}, label="holder", opaque=False)
+        box["h"] = h
+        return {"il_ops_holder": h, "inlined_pure_classes": ()}
+
+    def twice(interp=None):
+        op = AObj("Empty", {"name": "empty", "isa_name": None, "num_id": -1}, label="node")
+        box["op"] = op
+        return [op]
+
+    fi, outs = r.run("add_op", twice, self_over=over4, args_list=True)
+    first = dict(box["h"].fields["write_ops"])
+    # second call on the same holder with the same object
+    def again():
+        return [box["op"]]
+    def over5():
+        return {"il_ops_holder": box["h"], "inlined_pure_classes": ()}
+    fi, outs2 = r.run("add_op", again, self_over=over5, args_list=True)
+    ctx.check("adding the same node twice registers it once", len(box["h"].fields["write_ops"]) == 1 and all(o.value is box["op"] for o in outs2 if o.kind != "raise"), "one entry, same node returned",
+              f"{len(box['h'].fields['write_ops'])} entries", fn_where(idx, fa), nontrivial=False)
 
 
 @rule("R11.3", "C11", "block order: READ block, then EXEC+WRITE or statement blocks (dependencies sorted by creation id before their effect), then the instruction sequence, then return", min_instances=5)
@@ -320,3 +379,47 @@ def r11_7(ctx):
     from .c12 import r12_5
 
     r12_5(ctx)
+
+
+@rule("R11.8", "C11", "generated names are C identifiers: a node name embeds another operand only through its C spelling (pure_var / effect_var), and the C spelling of a register replaces the `:` of explicit pairs", min_instances=6)
+def r11_8(ctx):
+    idx = get_index(ctx.env)
+    node_classes = set()
+    for b in NODE_BASES:
+        node_classes |= set(idx.subclasses(b))
+    init = idx.func("RZILTransformer.__init__")
+    inl = [n.value for n in ast.walk(init.node) if isinstance(n, ast.Assign) and U(n.targets[0]) == "self.inlined_pure_classes"]
+    ctx.need(inl and isinstance(inl[0], ast.Tuple), "inlined_pure_classes not found")
+    inlined = {U(e) for e in inl[0].elts}
+    ISA_SPELLING = {"get_name", "get_isa_name", "__str__"}
+    n_sites = 0
+    for fi in idx.funcs.values():
+        if fi.cls not in ("RZILTransformer", "HexagonTransformerExtension"):
+            continue
+        for n in ast.walk(fi.node):
+            if not (isinstance(n, ast.Call) and isinstance(n.func, ast.Name) and n.func.id in node_classes and n.args):
+                continue
+            cls = n.func.id
+            name = n.args[0]
+            if cls in inlined or not isinstance(name, ast.JoinedStr):
+                continue  # never declared, or a plain string / token text (identifier by the grammar's token classes, R17.5)
+            n_sites += 1
+            bad = []
+            for part in name.values:
+                if isinstance(part, ast.Constant):
+                    if not re.fullmatch(r"[A-Za-z0-9_]*", str(part.value)):
+                        bad.append(f"literal part {part.value!r}")
+                elif isinstance(part, ast.FormattedValue):
+                    v = part.value
+                    if isinstance(v, ast.Call) and isinstance(v.func, ast.Attribute) and v.func.attr in ISA_SPELLING:
+                        bad.append(f"{U(v)} (ISA spelling: `R31:30` for an explicit pair)")
+                    elif isinstance(v, ast.Call) and isinstance(v.func, ast.Name) and v.func.id == "str":
+                        bad.append(f"{U(v)} (printed form of an operand)")
+            ctx.check(f"{fi.qual}: name of {cls} `{U(name)[:50]}`", not bad, "identifier characters and C spellings only", "; ".join(bad) or "ok", f"{fi.path.relative_to(idx.repo)}:{n.lineno}", nontrivial=bool(bad) or any(isinstance(p, ast.FormattedValue) for p in name.values))
+    ctx.need(n_sites >= 6, f"only {n_sites} templated node names found")
+    # the C spelling of a register is an identifier
+    fp = idx.func("Register.pure_var")
+    for nm, exp in (("R31:30", "R31_30"), ("Rs", "Rs"), ("P3:0_new", "P3_0_new")):
+        outs = Interp(idx).explore(lambda i, nm=nm: i.call_function(fp, [], self_obj=AObj("Register", {"name": nm, "isa_name": nm}, label="reg")))
+        got = [to_text(o.value) if o.kind != "raise" else "RAISE" for o in outs]
+        ctx.check(f"Register.pure_var[{nm}]", got == [exp], exp, str(got), fn_where(idx, fp))
